@@ -1,15 +1,28 @@
-"""C06 - see DESIGN.md section 3/C06; scenarios in catalog.jobs_C06, oracles in common."""
-from . import common, catalog
+"""C06 - see DESIGN.md section 3/C06; scenarios in catalog.jobs_C06, oracles in common;
+the legacy S3Transfer / process-pool front-ends are driven sequentially by frontends.py."""
+from . import common, catalog, frontends
 
-LEVEL = 'model_checking'
+LEVEL = "model_checking"
 
 
 def run(tier, seed):
     jobs = catalog.jobs_for('C06', tier, seed)
     cov, viol = common.run_catalogue(jobs, tier, 'C06')
+    fcov, fviol = frontends.run_jobs(frontends.download_jobs(tier, 'C06', faults=True, monitor_fs=True, pre=(None, 'OLD')))
+    cov['other_front_ends'] = fcov
+    for k in ('states', 'transitions'):
+        cov[k] += fcov[k]
+    for k in ('evaluations', 'executions', 'traces_validated_against_impl'):
+        cov[k] += fcov['executions']
+    cov['distinct_nontrivial'] += fcov['distinct_outcomes']
+    cov['caps_hit'] = cov['caps_hit'] + fcov['caps_hit']
+    cov['exhaustive'] = not cov['caps_hit']
+    viol.extend(fviol)
     return {'coverage': cov, 'violations': viol, 'level': LEVEL,
-            'assumptions': common.ASSUMPTIONS}
+            'assumptions': common.ASSUMPTIONS + ['legacy S3Transfer and the process-pool submitter/worker loop are driven under one canonical (sequential) schedule']}
 
 
 def replay(data):
+    if data.get('kind') == 'frontend':
+        return frontends.replay(data)
     return common.replay_manager(data)
